@@ -385,7 +385,15 @@ func (w *world) call(h, r int64, s int8, b string, pl *plan) (sig crypto.Signatu
 
 func (w *world) setup() bool {
 	var err error
-	w.dir, err = ioutil.TempDir(os.Getenv("VERIF_WORKDIR"), "verif-privval-")
+	base := os.Getenv("VERIF_WORKDIR")
+	if base == "" {
+		// a memory file system keeps the tens of thousands of small file operations cheap; rename / write semantics
+		// seen by the process (the crash model of this check) are the same
+		if fi, e := os.Stat("/dev/shm"); e == nil && fi.IsDir() {
+			base = "/dev/shm"
+		}
+	}
+	w.dir, err = ioutil.TempDir(base, "verif-privval-")
 	if err != nil {
 		fmt.Fprintln(os.Stderr, "tempdir:", err)
 		os.Exit(2)
